@@ -182,6 +182,20 @@ CHECKS["C15"] = dict(
          "assertion sets of size <= 4 (thorough 5) over 2 persons / 3 companies / a CEO role, incl. cycles and diamonds, fields and graph vs fixpoint.",
     note="Assumed: SymbolGraph.add_relation / relation queries (C14), class-diagram queries (C17), MonitoredContainer._update (C16); monotone histories.",
 )
+CHECKS["C04"] = dict(
+    category="other",
+    technique="contract-based deductive verification: memo-isomorphism contracts on to_dao / from_dao and the conversion states (real ast executed with an assumed SQLAlchemy mapper model, recursive calls answered by the contract) + bounded random object-graph driver",
+    text="to_dao: a memo hit returns the memoised DAO and allocates nothing; a miss allocates one DAO of exactly the DAO class, registers it BEFORE "
+         "the fields are converted (cycle closes on the same DAO), copies every data column, converts references / scalar one-to-many / collections "
+         "(order and duplicates kept, None stays None, empty stays empty) with the same state. from_dao: memo hit; else an uninitialised instance of "
+         "exactly the original class is memoised before relationships are followed, scalars and relationships become constructor arguments, in-progress "
+         "references are patched from the memo, the constructor runs once, alternative mappings are replaced by create_from_dao() and re-memoised. "
+         "ToDAOState / FromDAOState operations, AlternativeMapping.to_dao, to_dao(), is_data_column. Level 'other': mapper width is fixed (5 columns, "
+         "4 relationships), the composition of the two memo isomorphisms into the round trip is argued, DAOs below an alternatively mapped parent and "
+         "whole graphs (1500 / 30000 random graphs with sharing, cycles, alternative mappings) are decided by the bounded driver.",
+    note="Assumed: SQLAlchemy mapper model, injective id() with keep-alive, get_dao_class registry, user mappings inverse on their data; "
+         "SQLAlchemy attribute instrumentation (back-population) not modelled.",
+)
 NOT_APPLICABLE = {
     "C05": "decided by SQLAlchemy/SQLite semantics acting on generated code; no krrood function body carries it, so no contract within reach can express it (DESIGN.md §4)",
 }
